@@ -9,5 +9,5 @@ Extraction "model.ml"
   Z.add Z.mul Z.sub Z.opp Z.div_eucl Z.compare Z.of_nat Z.to_nat Z.abs Z.eqb Z.ltb Z.leb
   Z.pow Z.max Z.min Z.log2 Z.div Z.modulo
   ctor ctor_check ctor_check_fast val
-  run_history
+  run_history test_number_status
   run_hist segments c11_check c11_check_words between upto end_of.
